@@ -311,7 +311,8 @@ where
 {
     fn from(value: T) -> Self {
         let t: TypeLayout = value.into();
-        match t.get_type_recursively() {
+        // an alias of a map type is a map
+        match t.disregard_distractors(false) {
             TypeLayout::Map(..) => Self::MapOp,
             _ => Self::VecOp,
         }
@@ -424,7 +425,11 @@ impl Parser {
     }
 
     pub fn list_index(input: Node, starting_type: TypeLayout) -> Result<Index, Vec<anyhow::Error>> {
-        let origin_is_map = starting_type.is_map();
+        // an alias of a map type (`type A map[float, str]`) is a map: its keys are not list positions
+        let origin_is_map = matches!(
+            starting_type.disregard_distractors(false),
+            TypeLayout::Map(..)
+        );
 
         let children = input.children();
 
